@@ -58,7 +58,7 @@ Definition is_header_key (k : bytes) : bool :=
   startswith k k_HTTP_ || beqb k s_CONTENT_LENGTH || beqb k s_CONTENT_TYPE.
 
 Lemma startswith_app p s : startswith (p ++ s) p = true.
-Proof. induction p as [|a p IH]; cbn [startswith app]; auto. rewrite N.eqb_refl. exact IH. Qed.
+Proof. induction p as [|a p IH]; cbn [startswith app]. - destruct s; reflexivity. - rewrite N.eqb_refl. exact IH. Qed.
 
 Lemma env_key_header_form key : is_header_key (env_key key) = true.
 Proof.
